@@ -46,6 +46,9 @@ def fam_variable_info(rng, n):
                 fam.bump(key)
         if isinstance(s, dict) and "error" in s:
             fam.disagreements.append({"case": w, "model": s, "what": "runner error"})
+        elif [r[0] for r in s.get("rows", [])] != i["grid_names"] or i["grid_names"] != i["gridspec_names"]:
+            fam.disagreements.append({"case": w, "model": [r[0] for r in s.get("rows", [])], "impl": [i["grid_names"], i["gridspec_names"]],
+                                      "what": "model.grids / gridspecs do not list the variables in the order of variable_info"})
         elif s.get("rows") != i["rows"]:
             fam.disagreements.append({"case": w, "model": s, "impl": i["rows"],
                                       "what": "get_variable_info differs from the regenerated definition (rows or their order)"})
